@@ -33,6 +33,8 @@ pub struct Dc {
     pub grid_rendition: bool,
     /// D7: tab stops not compared
     pub tabstops: bool,
+    /// D8 (narrow form): title and icon name not compared
+    pub labels: bool,
     /// D12: after `CSI r` (region removed) the cursor may stay or be homed
     pub cursor_home_alt: bool,
     /// D13: DECRC may keep the DECTCEM mode bit or bring it in line with the restored visibility
@@ -720,9 +722,17 @@ impl Model {
     }
 
     fn feed_str(&mut self, s: &str, utf8: bool) {
-        let (ev, d8, d10) = recog::recognise_d10(s, utf8);
+        let rec = recog::recognise_full(s, utf8);
+        let (ev, d8, d10) = (rec.events, rec.d8, rec.d10_events);
         if d8 {
             self.dc.mark_all("D8 unusual OSC shape");
+        }
+        if rec.d8_labels {
+            self.dc.labels = true;
+            self.dc.why.push("D8 OSC string without ';' (labels only)");
+        }
+        if rec.events_alt.is_some() {
+            self.dc.mark_all("D15 ESC inside an unfinished sequence");
         }
         for (i, e) in ev.iter().enumerate() {
             if d10.contains(&i) {
@@ -930,12 +940,12 @@ pub fn compare(exp: &Snap, obs: &Snap, dc: &Dc, comps: &[Comp]) -> Vec<(Comp, St
                 }
             }
             Comp::Title => {
-                if exp.title != obs.title {
+                if !dc.labels && exp.title != obs.title {
                     out.push((*comp, format!("title expected {:?} observed {:?}", exp.title, obs.title)));
                 }
             }
             Comp::Icon => {
-                if exp.icon != obs.icon {
+                if !dc.labels && exp.icon != obs.icon {
                     out.push((*comp, format!("icon expected {:?} observed {:?}", exp.icon, obs.icon)));
                 }
             }
